@@ -45,8 +45,13 @@ Resp == /\ Ev("Resp") /\ R.op = "usleep" /\ pend[R.t].us # -1
            THEN R.r = 0 /\ R.dt >= p.us
            ELSE R.r \in {0, -1}
         /\ pend' = [pend EXCEPT ![R.t] = NoSleep] /\ UNCHANGED mark
+\* h_sync --prim starve: a finite sleeper under a storm of cross-vCPU wake-ups on its vCPU.  `late` = scheduling rounds of that
+\* vCPU in which another thread ran with the runtime clock already past the sleeper's deadline while the sleeper had not run:
+\* "no later than the first scheduling round after its deadline" allows the round in progress at the deadline, the round that
+\* resumes both threads, and two of slack.
+Starve == Ev("Starve") /\ R.done /\ R.r = 0 /\ R.dt >= R.us /\ R.late <= 4 /\ UNCHANGED <<mark, pend>>
 Quiesce == Ev("Quiesce") /\ \A t \in T : pend[t].us = -1 /\ UNCHANGED <<mark, pend>>
-Next == Reset \/ Inv \/ ShutInv \/ ShutResp \/ Kick \/ Resp \/ Quiesce
+Next == Reset \/ Inv \/ ShutInv \/ ShutResp \/ Kick \/ Resp \/ Starve \/ Quiesce
 Spec == Init /\ [][Next]_vars
 NotAccepted == l <= Len(Tr)
 Progress == TLCSet(1, IF TLCGet(1) < l THEN l ELSE TLCGet(1))
